@@ -74,8 +74,7 @@ ES(unit) == IF unit.defs # <<>> THEN unit.defs[1].s
 
 \* The generated code around the enum type: required check on the raw map; a pointer field (optional)
 \* is set to nil by a JSON null without calling UnmarshalJSON; a value field gets UnmarshalJSON(null).
-\* Deviation "UntypedEnumDefUnvalidated": a $ref to a definition with neither `type` nor `properties`
-\* becomes interface{} (generateReferencedType), so an untyped enum definition validates nothing.
+\* (Before fix 5108797 a $ref to an enum definition without `type` became interface{} and validated nothing.)
 ImplAccepts(unit, d, D) ==
   LET es == ES(unit) IN
   IF ~ObjHas(d, "x") THEN "x" \notin Required(unit.schema)
@@ -86,8 +85,7 @@ ImplAccepts(unit, d, D) ==
       [] unit.use = "optdefault" -> IF v.t = "null" /\ "EnumNullDefault" \notin D THEN TRUE
                                     ELSE EnumUnmarshalAccepts(es, v)
       [] unit.use = "req" -> EnumUnmarshalAccepts(es, v)
-      [] unit.use = "ref" -> IF "UntypedEnumDefUnvalidated" \in D /\ ~Has(es, "type") THEN TRUE
-                             ELSE EnumUnmarshalAccepts(es, v)
+      [] unit.use = "ref" -> EnumUnmarshalAccepts(es, v)
       [] unit.use = "items" -> v.t = "arr" /\ \A i \in DOMAIN v.a : EnumUnmarshalAccepts(es, v.a[i])
 
 RefVerdict(unit, d)    == Valid(unit.defs, unit.schema, d, {}, "decl", NoLim)
